@@ -178,8 +178,9 @@ def run(ctx):
         other = "%s@%d" % (t, 3 - int(c))       # (variants run on connection 1 only)
         if other in progs:
             pairs.append(sorted([a, other]))
-    if q and len(pairs) > 900:
-        pairs = [pairs[i] for i in sorted(random.Random(ctx.seed).sample(range(len(pairs)), 900))]
+    cap = 900 if q else 2500
+    if len(pairs) > cap:
+        pairs = [pairs[i] for i in sorted(random.Random(ctx.seed).sample(range(len(pairs)), cap))]
     G = Tla("{" + ", ".join("{" + ", ".join(tla_value(n) for n in g) + "}" for g in pairs) + "}")
     def compose(name, G, workers, timeout):
         r2 = run_tlc(ctx.sub(name), "Locks", {"Prog": P, "Groups": G, "ClassOf": classof}, spec="Spec", invariants=["ReportDeadlocks"],
@@ -208,7 +209,7 @@ def run(ctx):
                               {"case": 1, "group": list(g), "programs": {x: progs[x] for x in g}}, engine="locks")
         return dead
 
-    dead2 = compose("compose2", G, 4 if q else 8, 1500)
+    dead2 = compose("compose2", G, 4 if q else 8, 1500 if q else 6000)
     if dead2:
         confirm_on_real_locks(ctx, sorted(dead2)[0], progs)
     if not q:
@@ -219,7 +220,7 @@ def run(ctx):
     ctx.cov["evaluations"] += len(pairs)
     ctx.cov["distinct_nontrivial"] += len([g for g in pairs if len(g) == 2])
     ctx.cov["traces_validated_against_impl"] += len(names)
-    ctx.cov["exhaustive"] = not q or len(pairs) <= 900
+    ctx.cov["exhaustive"] = len(pairs) < cap
     ctx.cov["rule"] = ("acquisition programs recorded from the real code by running each of %d task kinds (every service of the message "
                        "handler, the subscription timer body, session creation, transport teardown) on two connections of one real "
                        "server, plus %d variant requests of Services.tla (the likely-to-succeed set and a seeded sample of the adversarial "
